@@ -9,7 +9,6 @@ import (
 	"io"
 	"net/http"
 	"net/netip"
-	"regexp"
 	"sort"
 	"strings"
 	"sync"
@@ -40,11 +39,74 @@ import (
 // ---------------------------------------------------------------------------------------------
 
 const (
-	c43AuthErrBody = `{"status":"error","error":"authentication error"}`
-	c43SessionTTL  = 18 * time.Second // source: sessionCloseAfter = 30 s, cleanup every 10 s
+	c43SessionTTL = 18 * time.Second // source: sessionCloseAfter = 30 s, cleanup every 10 s
 )
 
-var c43SecretRe = regexp.MustCompile(`session=([0-9a-fA-F-]{36})`)
+// What the statement does not fix, the harness does not assume: the secret is an opaque token, and the names of the
+// query parameter / cookie that carry it are learnt from what the server hands out to the harness' own first two
+// sessions (the URIs inside the multivariant playlist, the Set-Cookie header), the way a player would follow them.
+// The wording of a refusal is not compared either: a refusal is a 401 without media, secret or cookie.
+
+// c43PlaylistRawURIs returns every URI of a playlist as written (lines that are not tags, URI="..." attributes).
+func c43PlaylistRawURIs(body []byte, skipPreloadHints bool) []string {
+	var out []string
+	for _, line := range strings.Split(string(body), "\n") {
+		line = strings.TrimSpace(line)
+		switch {
+		case line == "":
+		case skipPreloadHints && strings.HasPrefix(line, "#EXT-X-PRELOAD-HINT"):
+		case strings.HasPrefix(line, "#"):
+			rest := line
+			for {
+				i := strings.Index(rest, `URI="`)
+				if i < 0 {
+					break
+				}
+				rest = rest[i+5:]
+				j := strings.IndexByte(rest, '"')
+				if j < 0 {
+					break
+				}
+				out = append(out, rest[:j])
+				rest = rest[j+1:]
+			}
+		default:
+			out = append(out, line)
+		}
+	}
+	return out
+}
+
+// c43PlaylistParams returns the query parameters carried by the URIs of a playlist: name -> distinct values, each
+// value being an opaque token that ends at the next '&' (or at the end of the URI). "cookieCheck" belongs to the
+// creation handshake and is not a candidate.
+func c43PlaylistParams(body []byte) map[string][]string {
+	out := map[string][]string{}
+	for _, u := range c43PlaylistRawURIs(body, false) {
+		i := strings.IndexByte(u, '?')
+		if i < 0 {
+			continue
+		}
+		q := u[i+1:]
+		if j := strings.IndexAny(q, "# \t"); j >= 0 {
+			q = q[:j]
+		}
+		for _, kv := range strings.Split(q, "&") {
+			k, v, _ := strings.Cut(kv, "=")
+			if k == "" || k == "cookieCheck" {
+				continue
+			}
+			dup := false
+			for _, x := range out[k] {
+				dup = dup || x == v
+			}
+			if !dup {
+				out[k] = append(out[k], v)
+			}
+		}
+	}
+	return out
+}
 
 // ---------------------------------------------------------------- publisher
 
@@ -190,36 +252,12 @@ func c43HasMediaBytes(body []byte) bool {
 // they name a part that does not exist yet and the server would block until it does.
 func c43PlaylistURIs(body []byte) []string {
 	var out []string
-	add := func(u string) {
+	for _, u := range c43PlaylistRawURIs(body, true) {
 		if i := strings.IndexByte(u, '?'); i >= 0 {
 			u = u[:i]
 		}
 		if u != "" && !strings.Contains(u, "/") {
 			out = append(out, u)
-		}
-	}
-	for _, line := range strings.Split(string(body), "\n") {
-		line = strings.TrimSpace(line)
-		switch {
-		case line == "":
-		case strings.HasPrefix(line, "#EXT-X-PRELOAD-HINT"):
-		case strings.HasPrefix(line, "#"):
-			rest := line
-			for {
-				i := strings.Index(rest, `URI="`)
-				if i < 0 {
-					break
-				}
-				rest = rest[i+5:]
-				j := strings.IndexByte(rest, '"')
-				if j < 0 {
-					break
-				}
-				add(rest[:j])
-				rest = rest[j+1:]
-			}
-		default:
-			add(line)
 		}
 	}
 	return out
@@ -239,19 +277,22 @@ type c43Sess struct {
 }
 
 type c43World struct {
-	core     *vcCore
-	hc       *http.Client
-	base     string
-	users    []c43User
-	cdn      string
-	variant  string
-	pubs     map[string]*c43Pub
-	sessions []*c43Sess
-	cdnLive  map[string]time.Time // path -> last use of the CDN session
-	files    map[string][]string  // path -> file names seen in playlists served to valid sessions
-	hist     []string
-	classes  map[string]bool
-	nontriv  bool
+	core    *vcCore
+	hc      *http.Client
+	base    string
+	users   []c43User
+	cdn     string
+	variant string
+	// learnt from the harness' own sessions (see checkCreate with learn=true)
+	qParam     string // name of the query parameter that carries the secret
+	cookieName string // name of the cookie that carries the secret
+	pubs       map[string]*c43Pub
+	sessions   []*c43Sess
+	cdnLive    map[string]time.Time // path -> last use of the CDN session
+	files      map[string][]string  // path -> file names seen in playlists served to valid sessions
+	hist       []string
+	classes    map[string]bool
+	nontriv    bool
 }
 
 func (w *c43World) url(path, file, query string) string {
@@ -285,12 +326,17 @@ type c43CreateReq struct {
 }
 
 type c43CreateRes struct {
-	err        error
-	firstCode  int
-	resp       *c43Resp
+	err       error
+	firstCode int
+	resp      *c43Resp
+	// raw material (create runs concurrently and does not touch the world)
+	cookies []*http.Cookie      // cookies set by the final answer, the handshake's cookieCheck excluded
+	params  map[string][]string // query parameters of the URIs of the returned playlist
+	// resolved by checkCreate
 	secret     string
 	viaCookie  bool
-	sessCookie bool
+	sessCookie bool // the answer sets some cookie
+	unknown    bool // the secret sits under a name the harness has not learnt
 }
 
 func (r c43CreateReq) String() string {
@@ -320,7 +366,7 @@ func (w *c43World) create(r c43CreateReq) c43CreateRes {
 		}
 		out.firstCode = res.status
 		if res.status != http.StatusFound {
-			out.resp = res
+			out.fill(res)
 			return out
 		}
 		target = w.base + res.hdr.Get("Location")
@@ -333,28 +379,67 @@ func (w *c43World) create(r c43CreateReq) c43CreateRes {
 		out.err = err
 		return out
 	}
-	out.resp = res
-	for _, ck := range res.res.Cookies() {
-		if ck.Name == "hlsSession" {
-			out.sessCookie = true
-			out.secret = ck.Value
-			out.viaCookie = true
-		}
-	}
-	if out.secret == "" {
-		if m := c43SecretRe.FindSubmatch(res.body); m != nil {
-			out.secret = string(m[1])
-		}
-	}
+	out.fill(res)
 	return out
+}
+
+func (o *c43CreateRes) fill(res *c43Resp) {
+	o.resp = res
+	for _, ck := range res.res.Cookies() {
+		if ck.Name != "cookieCheck" {
+			o.cookies = append(o.cookies, ck)
+		}
+	}
+	o.params = c43PlaylistParams(res.body)
+}
+
+// resolve finds the secret in the answer to a creation. learn: this is one of the harness' own first sessions (always
+// admitted, nothing else in the query): whatever single cookie / single query parameter the server hands out is, by
+// construction, the carrier of the secret, and its name is remembered.
+func (w *c43World) resolve(o *c43CreateRes, learn bool) {
+	o.sessCookie = len(o.cookies) > 0
+	if learn && w.cookieName == "" && len(o.cookies) == 1 {
+		w.cookieName = o.cookies[0].Name
+	}
+	for _, ck := range o.cookies {
+		if ck.Name == w.cookieName {
+			o.secret, o.viaCookie = ck.Value, true
+			return
+		}
+	}
+	if learn && w.qParam == "" && len(o.params) == 1 {
+		for k, vals := range o.params {
+			if len(vals) == 1 {
+				w.qParam = k
+			}
+		}
+	}
+	if vals := o.params[w.qParam]; w.qParam != "" && len(vals) > 0 {
+		o.secret = vals[0]
+		return
+	}
+	if !learn {
+		// a secret under a name the harness has not learnt is still a secret (matters for refusals, which must carry none)
+		for _, vals := range o.params {
+			if len(vals) > 0 {
+				o.secret, o.unknown = vals[0], true
+				return
+			}
+		}
+	}
 }
 
 // checkCreate compares the outcome of a creation with the model and registers the session.
 func (w *c43World) checkCreate(r c43CreateReq, o c43CreateRes, fail func(string, ...any)) *c43Sess {
+	return w.checkCreateL(r, o, false, fail)
+}
+
+func (w *c43World) checkCreateL(r c43CreateReq, o c43CreateRes, learn bool, fail func(string, ...any)) *c43Sess {
 	if o.err != nil {
 		fmt.Printf("VERIF-INCONCLUSIVE: %s: transport error %v\n", r, o.err)
 		fail("%s: transport error: %v", r, o.err)
 	}
+	w.resolve(&o, learn)
 	admit := c43Admits(w.users, r.cl.effUser(), r.cl.effPass(), r.cl.ip, "read", r.path)
 	published := w.pubs[r.path] != nil
 	res := o.resp
@@ -365,8 +450,8 @@ func (w *c43World) checkCreate(r c43CreateReq, o c43CreateRes, fail func(string,
 			fail("%s: the user table does not admit this client for read on %q, but the answer is %d %.200q",
 				r, r.path, res.status, res.body)
 		}
-		if string(res.body) != c43AuthErrBody || o.secret != "" || o.sessCookie {
-			fail("%s: refusal carries more than the fixed error object: body %.200q secret %q", r, res.body, o.secret)
+		if c43HasMediaBytes(res.body) || o.secret != "" || o.sessCookie {
+			fail("%s: refusal carries more than an error: body %.200q secret %q cookie=%v", r, res.body, o.secret, o.sessCookie)
 		}
 		return nil
 	case !published:
@@ -380,13 +465,32 @@ func (w *c43World) checkCreate(r c43CreateReq, o c43CreateRes, fail func(string,
 	if res.status != http.StatusOK || !bytes.HasPrefix(res.body, []byte("#EXTM3U")) {
 		fail("%s: the user table admits this client for read on %q, but the answer is %d %.200q", r, r.path, res.status, res.body)
 	}
-	if o.secret == "" {
-		fail("%s: session created but no secret in cookie or playlist: %.300q", r, res.body)
+	if o.secret == "" || o.unknown {
+		// The harness cannot tell where the secret is. If the media playlists named by this playlist are served to a
+		// request that carries nothing at all, that is a violation whatever the carrier is called; otherwise the
+		// carrier has a shape the harness does not understand (renamed beyond recognition, moved into the URI path, ...):
+		// not evidence against the statement.
+		hdr := map[string]string{}
+		if x := c43XFF(r.cl.ip); x != "" {
+			hdr["X-Forwarded-For"] = x
+		}
+		for _, f := range c43PlaylistURIs(res.body) {
+			if !strings.HasSuffix(f, ".m3u8") || f == "index.m3u8" {
+				continue
+			}
+			if pr, err := c43Do(w.hc, w.url(r.path, f, ""), hdr); err == nil && pr.status == http.StatusOK && c43LooksLikeMedia(f, pr.body) {
+				fail("%s: the playlist carries no secret and %s/%s is served (200, %.80q) to a request that carries none", r, r.path, f, pr.body)
+			}
+		}
+		msg := fmt.Sprintf("%s: session created (200 + playlist) but the harness finds no secret-carrying cookie or query parameter in the answer (learnt names: query %q cookie %q; parameters seen %v, cookies %d): %.300q",
+			r, w.qParam, w.cookieName, o.params, len(o.cookies), res.body)
+		fmt.Printf("VERIF-INCONCLUSIVE: %s\n", msg)
+		fail("VERIF-INCONCLUSIVE: %s", msg)
 	}
 	if o.viaCookie != r.cookieMode {
 		fail("%s: secret delivered by cookie=%v, expected %v", r, o.viaCookie, r.cookieMode)
 	}
-	if o.viaCookie && c43SecretRe.Match(res.body) {
+	if o.viaCookie && bytes.Contains(res.body, []byte(o.secret)) {
 		fail("%s: cookie session but the secret is in the playlist too", r)
 	}
 	s := &c43Sess{n: len(w.sessions), path: r.path, secret: o.secret, ip: r.cl.ip, cookie: o.viaCookie, live: true, lastUse: time.Now()}
@@ -539,11 +643,11 @@ func (w *c43World) doFetch(f c43Fetch, fail func(string, ...any)) {
 		hdr["Authorization"] = f.auth
 	}
 	if f.cookie != nil {
-		hdr["Cookie"] = "hlsSession=" + *f.cookie
+		hdr["Cookie"] = w.cookieName + "=" + *f.cookie
 	}
 	q := ""
 	if f.query != nil {
-		q = "session=" + *f.query
+		q = w.qParam + "=" + *f.query
 	}
 	res, err := c43Do(w.hc, w.url(f.path, f.file, q), hdr)
 	if err != nil {
@@ -565,8 +669,8 @@ func (w *c43World) doFetch(f c43Fetch, fail func(string, ...any)) {
 			fail("%s: refused (401) although the request carries the secret of a live session of %q from its creator's address (or the CDN secret of a path with a CDN session)",
 				f, f.path)
 		}
-		if string(res.body) != c43AuthErrBody || c43HasMediaBytes(res.body) {
-			fail("%s: 401 body is not the fixed error object: %.200q", f, res.body)
+		if c43HasMediaBytes(res.body) {
+			fail("%s: the 401 answer carries media: %.200q", f, res.body)
 		}
 	default:
 		fail("%s: unexpected status %d %.200q (model: %s)", f, res.status, res.body, want)
@@ -665,10 +769,11 @@ func TestVerifC43HLSSessions(t *testing.T) {
 		}
 
 		// ---- the harness' own sessions: learn the real playlist / segment names of both paths
-		for _, name := range c43Paths {
-			r := c43CreateReq{path: name, cl: c43Client{user: "verifroot", pass: "r00tpass", placement: "basic", ip: "10.250.0.1"}}
+		// The first one gets its secret in the playlist URIs, the second one in a cookie: the names of both carriers are learnt here.
+		for i, name := range c43Paths {
+			r := c43CreateReq{path: name, cl: c43Client{user: "verifroot", pass: "r00tpass", placement: "basic", ip: "10.250.0.1"}, cookieMode: i == 1}
 			before := w.apiSessions(fail)
-			s := w.checkCreate(r, w.create(r), fail)
+			s := w.checkCreateL(r, w.create(r), true, fail)
 			w.hist = append(w.hist, fmt.Sprintf("%s=s%d", r, s.n))
 			for id := range w.apiSessions(fail) {
 				if _, ok := before[id]; !ok {
@@ -689,6 +794,9 @@ func TestVerifC43HLSSessions(t *testing.T) {
 			if nseg == 0 {
 				c43Inconclusive(t, "no segment names learnt on %s: %v", name, w.files[name])
 			}
+		}
+		if w.qParam == "" || w.cookieName == "" {
+			c43Inconclusive(t, "the harness could not learn how the server hands out the secret (query parameter %q, cookie %q) from its own two sessions", w.qParam, w.cookieName)
 		}
 
 		// ---- batch of session creations, concurrently (a refusal with credentials sleeps up to 4 s)
@@ -767,7 +875,7 @@ func TestVerifC43HLSSessions(t *testing.T) {
 				if res.status != http.StatusOK || !bytes.HasPrefix(res.body, []byte("#EXTM3U")) {
 					fail("multivariant playlist with the CDN secret on %s: %d %.200q", path, res.status, res.body)
 				}
-				if c43SecretRe.Match(res.body) {
+				if len(c43PlaylistParams(res.body)[w.qParam]) > 0 {
 					fail("CDN playlist carries a session secret: %.300q", res.body)
 				}
 				w.cdnLive[path] = time.Now()
